@@ -87,7 +87,7 @@ theorem large_step_ext (c : Chart) (e : EState) (h : ¬ Quiescent e) :
     · rw [if_neg ht]
       by_cases hp : e.pristine = true
       · rw [if_pos hp]
-        exact EqExt.of_ext (Ext.trans (ext_emit e.x "bm") (large_microstep_ext c _ _ _ _ _))
+        exact EqExt.of_ext (Ext.trans (ext_emit e.x .bm) (large_microstep_ext c _ _ _ _ _))
       · rw [if_neg hp]
         by_cases hs : e.spontaneous = true
         · rw [if_pos hs]
@@ -118,7 +118,7 @@ theorem fast_step_ext (c : Chart) (e : EState) (h : ¬ Quiescent e) :
     · rw [if_neg ht]
       by_cases hp : e.pristine = true
       · rw [if_pos hp]
-        exact EqExt.of_ext (Ext.trans (ext_emit e.x "bm") (fast_microstep_ext c _ _ _ _ _))
+        exact EqExt.of_ext (Ext.trans (ext_emit e.x .bm) (fast_microstep_ext c _ _ _ _ _))
       · rw [if_neg hp]
         by_cases hs : e.spontaneous = true
         · rw [if_pos hs]
@@ -153,7 +153,7 @@ def Dequeuing (e : EState) : Prop :=
 
 theorem engine_internal (eng : Api.Engine) (c : Chart) (e : EState) (h : Dequeuing e) (ev : String) (rest : List String)
     (hi : e.x.iq = ev :: rest) :
-    Ext (({ e.x with iq := rest } : XS).emit s!"bpe:{ev}") (Api.engineStep eng c e).1.x := by
+    Ext (({ e.x with iq := rest } : XS).emit (.bpe ev)) (Api.engineStep eng c e).1.x := by
   obtain ⟨hf, ht, hp, hs⟩ := h
   cases eng
   · simp only [Api.engineStep]
@@ -179,14 +179,14 @@ already waiting -/
 theorem internal_events_in_raise_order (eng : Api.Engine) (c : Chart) (e : EState) (h : Dequeuing e)
     (ev : String) (rest : List String) (hi : e.x.iq = ev :: rest) :
     (∃ raised, (Api.engineStep eng c e).1.x.iq = rest ++ raised) ∧
-    (∃ later, (Api.engineStep eng c e).1.x.obs = later ++ s!"bpe:{ev}" :: e.x.obs) ∧
+    (∃ later, (Api.engineStep eng c e).1.x.obs = later ++ Tok.bpe ev :: e.x.obs) ∧
     (∃ sent, (Api.engineStep eng c e).1.x.eq = e.x.eq ++ sent) := by
   obtain ⟨⟨a, ha⟩, ⟨b, hb⟩, ⟨o, ho⟩⟩ := engine_internal eng c e h ev rest hi
   exact ⟨⟨a, ha⟩, ⟨o, by rw [ho]; rfl⟩, ⟨b, hb⟩⟩
 
 theorem engine_external (eng : Api.Engine) (c : Chart) (e : EState) (h : Quiescent e) (ev : String) (rest : List String)
     (hq : e.x.eq = ev :: rest) (hne : ev ≠ "") :
-    Ext (({ e.x with eq := rest } : XS).emit s!"bpe:{ev}") (Api.engineStep eng c e).1.x := by
+    Ext (({ e.x with eq := rest } : XS).emit (.bpe ev)) (Api.engineStep eng c e).1.x := by
   obtain ⟨hp, hs, hi, hst, ht, hf⟩ := h
   have hne' : (ev == "") = false := by simpa using hne
   cases eng
@@ -221,7 +221,7 @@ appended behind the events already waiting -/
 theorem external_events_in_arrival_order (eng : Api.Engine) (c : Chart) (e : EState) (h : Quiescent e)
     (ev : String) (rest : List String) (hq : e.x.eq = ev :: rest) (hne : ev ≠ "") :
     (∃ sent, (Api.engineStep eng c e).1.x.eq = rest ++ sent) ∧
-    (∃ later, (Api.engineStep eng c e).1.x.obs = later ++ s!"bpe:{ev}" :: e.x.obs) := by
+    (∃ later, (Api.engineStep eng c e).1.x.obs = later ++ Tok.bpe ev :: e.x.obs) := by
   obtain ⟨_, ⟨b, hb⟩, ⟨o, ho⟩⟩ := engine_external eng c e h ev rest hq hne
   exact ⟨⟨b, hb⟩, ⟨o, by rw [ho]; rfl⟩⟩
 
